@@ -1,5 +1,5 @@
 (* Select_proofs.v -- lemmas about Select.v (C12, C19, C20). *)
-From Grog Require Import Str Label Graph Select.
+From Grog Require Import Str Label Graph Select HashKey_proofs.
 From Coq Require Import Lia.
 
 (* ------------------------------------------------------------------ reachability *)
@@ -49,75 +49,188 @@ Qed.
 
 (* ------------------------------------------------------------------ selection (C12) *)
 
+Lemma mem_nat_spec x l : mem_nat x l = true <-> In x l.
+Proof.
+  unfold mem_nat. rewrite existsb_exists. split.
+  - intros [y [Hy E]]. apply Nat.eqb_eq in E. subst. exact Hy.
+  - intro H. exists x. split; [exact H | apply Nat.eqb_refl].
+Qed.
+
+(* selectAllAncestorsForBuild with its visited map.  Invariant of the depth-first traversal under a
+   topological numbering: the nodes of the map that are not yet finished are on the recursion stack,
+   and all of them have an index >= the node being processed ([below_fin]); between two roots every
+   node of the map is finished ([closed]), so the map is closed under dependencies. *)
 Section Sel.
   Variable g : graph.
   Variable ok : nat -> bool.
+  Hypothesis Ht : topo g.
 
-  (* what a successful / failing traversal below a node means *)
-  Definition below_spec (r : option (list nat)) (n : nat) : Prop :=
+  (* all dependencies of v are in the visited map *)
+  Definition fin (vis : list nat) (v : nat) : Prop := forall d, In d (deps g v) -> In d vis.
+  (* every node of the map below n is finished (the unfinished ones are on the recursion stack, all >= n) *)
+  Definition below_fin (n : nat) (vis : list nat) : Prop := forall v, In v vis -> v < n -> fin vis v.
+  Definition all_ok (vis : list nat) : Prop := forall v, In v vis -> ok v = true.
+
+  Lemma fin_mono vis vis' v : incl vis vis' -> fin vis v -> fin vis' v.
+  Proof. intros Hi Hf d Hd. apply Hi. exact (Hf d Hd). Qed.
+
+  (* what a successful / failing traversal below a node d that is in the map means *)
+  Definition anc_post (d : nat) (vis : list nat) (r : option (list nat)) : Prop :=
     match r with
-    | Some m => (forall x, In x m <-> reach g x n) /\ (forall x, reach g x n -> ok x = true)
-    | None => exists x, reach g x n /\ ok x = false
+    | Some vis' => incl vis vis' /\ fin vis' d /\ below_fin d vis' /\ all_ok vis' /\
+                   (forall v, In v vis' -> In v vis \/ reach g v d)
+    | None => exists x, reach g x d /\ ok x = false
     end.
 
-  Definition list_spec (r : option (list nat)) (ds : list nat) : Prop :=
+  Definition anc_spec (rec : nat -> list nat -> option (list nat)) (d : nat) : Prop :=
+    forall vis, In d vis -> below_fin d vis -> all_ok vis -> anc_post d vis (rec d vis).
+
+  Definition list_post (n : nat) (ds vis : list nat) (r : option (list nat)) : Prop :=
     match r with
-    | Some m => (forall x, In x m <-> exists d, In d ds /\ reach_refl g x d)
-                /\ (forall d x, In d ds -> reach_refl g x d -> ok x = true)
+    | Some vis' => incl vis vis' /\ (forall d, In d ds -> In d vis') /\ below_fin n vis' /\ all_ok vis' /\
+                   (forall v, In v vis' -> In v vis \/ exists d, In d ds /\ reach_refl g v d)
     | None => exists d x, In d ds /\ reach_refl g x d /\ ok x = false
     end.
 
-  Lemma sel_list_spec rec ds :
-    (forall d, In d ds -> below_spec (rec d) d) -> list_spec (sel_list ok rec ds) ds.
+  Lemma list_post_skip n d ds vis r :
+    In d vis -> list_post n ds vis r -> list_post n (d :: ds) vis r.
   Proof.
-    induction ds as [| d ds IH]; intro Hrec.
-    - simpl. split.
-      + intro x. split; [intros [] | intros [d [[] _]]].
-      + intros d x [].
-    - simpl. destruct (ok d) eqn:Eok.
-      + assert (Hd : below_spec (rec d) d) by (apply Hrec; left; reflexivity).
-        destruct (rec d) as [m1 |] eqn:Er.
-        * assert (IH' : list_spec (sel_list ok rec ds) ds)
-            by (apply IH; intros d' Hd'; apply Hrec; right; exact Hd').
-          destruct (sel_list ok rec ds) as [m2 |] eqn:El.
-          -- destruct Hd as [Hd1 Hd2]. destruct IH' as [I1 I2]. split.
-             ++ intro x. split.
-                ** intros [E | Hin].
-                   --- subst x. exists d. split; [left; reflexivity | left; reflexivity].
-                   --- apply in_app_or in Hin. destruct Hin as [Hin | Hin].
-                       +++ exists d. split; [left; reflexivity | right; apply Hd1; exact Hin].
-                       +++ apply I1 in Hin. destruct Hin as [d' [Hd' Hr]].
-                           exists d'. split; [right; exact Hd' | exact Hr].
-                ** intros [d' [[E | Hd'] Hr]].
-                   --- subst d'. destruct Hr as [E | Hr].
-                       +++ left. symmetry. exact E.
-                       +++ right. apply in_or_app. left. apply Hd1. exact Hr.
-                   --- right. apply in_or_app. right. apply I1. exists d'. split; assumption.
-             ++ intros d' x [E | Hd'] Hr.
-                ** subst d'. destruct Hr as [E | Hr]; [subst; exact Eok | apply Hd2; exact Hr].
-                ** exact (I2 d' x Hd' Hr).
-          -- destruct IH' as [d' [x [Hd' [Hr Hx]]]].
-             exists d', x. split; [right; exact Hd' | split; assumption].
-        * destruct Hd as [x [Hr Hx]]. exists d, x.
-          split; [left; reflexivity | split; [right; exact Hr | exact Hx]].
-      + exists d, d. split; [left; reflexivity | split; [left; reflexivity | exact Eok]].
+    intros Hd. destruct r as [vis' |]; simpl.
+    - intros [H1 [H2 [H3 [H4 H5]]]]. split; [exact H1 |]. split.
+      + intros d' [E | Hd']; [subst d'; apply H1; exact Hd | exact (H2 d' Hd')].
+      + split; [exact H3 |]. split; [exact H4 |].
+        intros v Hv. destruct (H5 v Hv) as [Hin | [d' [Hd' Hr]]]; [left; exact Hin |].
+        right. exists d'. split; [right; exact Hd' | exact Hr].
+    - intros [d' [x [Hd' [Hr Hx]]]]. exists d', x. split; [right; exact Hd' | split; assumption].
   Qed.
 
-  Lemma list_spec_below r n : list_spec r (deps g n) -> below_spec r n.
+  Lemma selv_list_spec rec n ds :
+    (forall d, In d ds -> d < n) -> (forall d, In d ds -> anc_spec rec d) ->
+    forall vis, below_fin n vis -> all_ok vis -> list_post n ds vis (selv_list ok rec ds vis).
   Proof.
-    destruct r as [m |]; simpl.
-    - intros [H1 H2]. split.
-      + intro x. rewrite H1. symmetry. apply reach_inv.
-      + intros x Hr. apply reach_inv in Hr. destruct Hr as [d [Hd Hr]]. exact (H2 d x Hd Hr).
-    - intros [d [x [Hd [Hr Hx]]]]. exists x. split; [| exact Hx].
+    induction ds as [| d ds IH]; intros Hlt Hrec vis Hbf Hok.
+    - simpl. split; [apply incl_refl |]. split; [intros d [] |]. split; [exact Hbf |].
+      split; [exact Hok |]. intros v Hv. left. exact Hv.
+    - assert (Hlt' : forall d', In d' ds -> d' < n) by (intros d' H; apply Hlt; right; exact H).
+      assert (Hrec' : forall d', In d' ds -> anc_spec rec d') by (intros d' H; apply Hrec; right; exact H).
+      cbn [selv_list]. destruct (mem_nat d vis) eqn:Em.
+      + apply list_post_skip; [apply mem_nat_spec; exact Em |]. exact (IH Hlt' Hrec' vis Hbf Hok).
+      + destruct (ok d) eqn:Eok.
+        * assert (Hdn : d < n) by (apply Hlt; left; reflexivity).
+          assert (Hd : anc_post d (d :: vis) (rec d (d :: vis))).
+          { apply (Hrec d (or_introl eq_refl)).
+            - left; reflexivity.
+            - intros v [E | Hv] Hvd; [subst v; lia |].
+              apply (fin_mono vis); [apply incl_tl, incl_refl | apply Hbf; [exact Hv | lia]].
+            - intros v [E | Hv]; [subst v; exact Eok | exact (Hok v Hv)]. }
+          destruct (rec d (d :: vis)) as [vis1 |].
+          -- destruct Hd as [D1 [D2 [D3 [D4 D5]]]].
+             assert (Hbf1 : below_fin n vis1).
+             { intros v Hv Hvn. destruct (D5 v Hv) as [[E | Hin] | Hr].
+               - subst v. exact D2.
+               - apply (fin_mono vis); [intros y Hy; apply D1; right; exact Hy | exact (Hbf v Hin Hvn)].
+               - apply D3; [exact Hv | exact (reach_topo_lt g v d Ht Hr)]. }
+             pose proof (IH Hlt' Hrec' vis1 Hbf1 D4) as HI.
+             destruct (selv_list ok rec ds vis1) as [vis' |]; simpl in HI |- *.
+             ++ destruct HI as [I1 [I2 [I3 [I4 I5]]]]. split.
+                ** intros y Hy. apply I1, D1. right. exact Hy.
+                ** split.
+                   --- intros d' [E | Hd']; [subst d'; apply I1, D1; left; reflexivity | exact (I2 d' Hd')].
+                   --- split; [exact I3 |]. split; [exact I4 |].
+                       intros v Hv. destruct (I5 v Hv) as [Hin | [d' [Hd' Hr]]].
+                       +++ destruct (D5 v Hin) as [[E | Hin'] | Hr].
+                           *** subst v. right. exists d. split; [left; reflexivity | left; reflexivity].
+                           *** left. exact Hin'.
+                           *** right. exists d. split; [left; reflexivity | right; exact Hr].
+                       +++ right. exists d'. split; [right; exact Hd' | exact Hr].
+             ++ destruct HI as [d' [x [Hd' [Hr Hx]]]]. exists d', x. split; [right; exact Hd' | split; assumption].
+          -- destruct Hd as [x [Hr Hx]]. exists d, x.
+             split; [left; reflexivity | split; [right; exact Hr | exact Hx]].
+        * exists d, d. split; [left; reflexivity | split; [left; reflexivity | exact Eok]].
+  Qed.
+
+  Lemma selv_anc_spec : forall fuel n, n < fuel -> anc_spec (selv_anc g ok fuel) n.
+  Proof.
+    induction fuel as [| f IH]; intros n Hn; [lia |].
+    intros vis Hin Hbf Hok. cbn [selv_anc].
+    assert (HL : list_post n (deps g n) vis (selv_list ok (selv_anc g ok f) (deps g n) vis)).
+    { apply selv_list_spec; [exact (Ht n) | | exact Hbf | exact Hok].
+      intros d Hd. apply IH. specialize (Ht _ _ Hd). lia. }
+    destruct (selv_list ok (selv_anc g ok f) (deps g n) vis) as [vis' |]; simpl in HL |- *.
+    - destruct HL as [L1 [L2 [L3 [L4 L5]]]]. split; [exact L1 |]. split; [exact L2 |].
+      split; [exact L3 |]. split; [exact L4 |].
+      intros v Hv. destruct (L5 v Hv) as [H | [d [Hd Hr]]]; [left; exact H |].
+      right. apply reach_inv. exists d. split; assumption.
+    - destruct HL as [d [x [Hd [Hr Hx]]]]. exists x. split; [| exact Hx].
       apply reach_inv. exists d. split; assumption.
   Qed.
 
-  Lemma sel_anc_spec : topo g -> forall fuel n, n < fuel -> below_spec (sel_anc g ok fuel n) n.
+  (* between two roots every node of the map is finished *)
+  Definition closed (vis : list nat) : Prop := forall v, In v vis -> fin vis v.
+
+  Lemma closed_reach vis : closed vis -> forall v x, reach g x v -> In v vis -> In x vis.
   Proof.
-    intros Ht fuel. induction fuel as [| f IH]; intros n Hn; [lia |].
-    simpl. apply list_spec_below. apply sel_list_spec.
-    intros d Hd. apply IH. specialize (Ht _ _ Hd). lia.
+    intros Hc v x Hr. induction Hr as [a n Hin | a b n Hab IH Hin]; intro Hn.
+    - exact (Hc n Hn a Hin).
+    - apply IH. exact (Hc n Hn b Hin).
+  Qed.
+
+  Definition roots_post (rs vis : list nat) (r : option (list nat)) : Prop :=
+    match r with
+    | Some vis' => incl vis vis' /\ (forall r, In r rs -> In r vis') /\ closed vis' /\ all_ok vis' /\
+                   (forall v, In v vis' -> In v vis \/ exists r, In r rs /\ reach_refl g v r)
+    | None => exists r x, In r rs /\ reach g x r /\ ok x = false
+    end.
+
+  Lemma roots_post_skip r rs vis res :
+    In r vis -> roots_post rs vis res -> roots_post (r :: rs) vis res.
+  Proof.
+    intros Hr. destruct res as [vis' |]; simpl.
+    - intros [H1 [H2 [H3 [H4 H5]]]]. split; [exact H1 |]. split.
+      + intros r' [E | Hr']; [subst r'; apply H1; exact Hr | exact (H2 r' Hr')].
+      + split; [exact H3 |]. split; [exact H4 |].
+        intros v Hv. destruct (H5 v Hv) as [Hin | [r' [Hr' Hx]]]; [left; exact Hin |].
+        right. exists r'. split; [right; exact Hr' | exact Hx].
+    - intros [r' [x [Hr' [Hx Hk]]]]. exists r', x. split; [right; exact Hr' | split; assumption].
+  Qed.
+
+  Lemma selv_roots_post rs :
+    (forall r, In r rs -> ok r = true) ->
+    forall vis, closed vis -> all_ok vis -> roots_post rs vis (selv_roots g ok rs vis).
+  Proof.
+    induction rs as [| r rs IH]; intros Hrs vis Hc Hok.
+    - simpl. split; [apply incl_refl |]. split; [intros r [] |]. split; [exact Hc |].
+      split; [exact Hok |]. intros v Hv. left. exact Hv.
+    - assert (Hrs' : forall r', In r' rs -> ok r' = true) by (intros r' H; apply Hrs; right; exact H).
+      cbn [selv_roots]. destruct (mem_nat r vis) eqn:Em.
+      + apply roots_post_skip; [apply mem_nat_spec; exact Em |]. exact (IH Hrs' vis Hc Hok).
+      + assert (Hd : anc_post r (r :: vis) (selv_anc g ok (S r) r (r :: vis))).
+        { apply selv_anc_spec; [lia | left; reflexivity | |].
+          - intros v [E | Hv] Hvr; [subst v; lia |].
+            apply (fin_mono vis); [apply incl_tl, incl_refl | exact (Hc v Hv)].
+          - intros v [E | Hv]; [subst v; apply Hrs; left; reflexivity | exact (Hok v Hv)]. }
+        destruct (selv_anc g ok (S r) r (r :: vis)) as [vis1 |].
+        * destruct Hd as [D1 [D2 [D3 [D4 D5]]]].
+          assert (Hc1 : closed vis1).
+          { intros v Hv. destruct (D5 v Hv) as [[E | Hin] | Hr].
+            - subst v. exact D2.
+            - apply (fin_mono vis); [intros y Hy; apply D1; right; exact Hy | exact (Hc v Hin)].
+            - apply D3; [exact Hv | exact (reach_topo_lt g v r Ht Hr)]. }
+          pose proof (IH Hrs' vis1 Hc1 D4) as HI.
+          destruct (selv_roots g ok rs vis1) as [vis' |]; simpl in HI |- *.
+          -- destruct HI as [I1 [I2 [I3 [I4 I5]]]]. split.
+             ++ intros y Hy. apply I1, D1. right. exact Hy.
+             ++ split.
+                ** intros r' [E | Hr']; [subst r'; apply I1, D1; left; reflexivity | exact (I2 r' Hr')].
+                ** split; [exact I3 |]. split; [exact I4 |].
+                   intros v Hv. destruct (I5 v Hv) as [Hin | [r' [Hr' Hx]]].
+                   --- destruct (D5 v Hin) as [[E | Hin'] | Hr].
+                       +++ subst v. right. exists r. split; [left; reflexivity | left; reflexivity].
+                       +++ left. exact Hin'.
+                       +++ right. exists r. split; [left; reflexivity | right; exact Hr].
+                   --- right. exists r'. split; [right; exact Hr' | exact Hx].
+          -- destruct HI as [r' [x [Hr' [Hx Hk]]]]. exists r', x. split; [right; exact Hr' | split; assumption].
+        * destruct Hd as [x [Hx Hk]]. exists r, x. split; [left; reflexivity | split; assumption].
   Qed.
 
   Definition roots_spec (r : option (list nat)) (rs : list nat) : Prop :=
@@ -127,41 +240,23 @@ Section Sel.
     | None => exists r x, In r rs /\ reach g x r /\ ok x = false
     end.
 
-  Lemma select_roots_spec : topo g -> forall rs, roots_spec (select_roots g ok rs) rs.
+  (* the visited map at the end is exactly the closure of the roots; the platform error is
+     reported iff some root has a platform-incompatible transitive dependency *)
+  Lemma select_roots_spec rs :
+    (forall r, In r rs -> ok r = true) -> roots_spec (selv_roots g ok rs []) rs.
   Proof.
-    intros Ht rs. induction rs as [| r rs IH].
-    - simpl. split.
-      + intro x. split; [intros [] | intros [r [[] _]]].
-      + intros r x [].
-    - simpl. unfold select_ancestors.
-      assert (Hr : below_spec (sel_anc g ok (S r) r) r) by (apply sel_anc_spec; [exact Ht | lia]).
-      destruct (sel_anc g ok (S r) r) as [m |].
-      + destruct (select_roots g ok rs) as [m' |].
-        * destruct Hr as [H1 H2]. destruct IH as [I1 I2]. split.
-          -- intro x. split.
-             ++ intros [E | Hin].
-                ** subst x. exists r. split; [left; reflexivity | left; reflexivity].
-                ** apply in_app_or in Hin. destruct Hin as [Hin | Hin].
-                   --- exists r. split; [left; reflexivity | right; apply H1; exact Hin].
-                   --- apply I1 in Hin. destruct Hin as [r' [Hr' Hx]]. exists r'. split; [right; exact Hr' | exact Hx].
-             ++ intros [r' [[E | Hr'] Hx]].
-                ** subst r'. destruct Hx as [E | Hx]; [left; symmetry; exact E |].
-                   right. apply in_or_app. left. apply H1. exact Hx.
-                ** right. apply in_or_app. right. apply I1. exists r'. split; assumption.
-          -- intros r' x [E | Hr'] Hx.
-             ++ subst r'. exact (H2 x Hx).
-             ++ exact (I2 r' x Hr' Hx).
-        * destruct IH as [r' [x [Hr' [Hx Hok]]]]. exists r', x. split; [right; exact Hr' | split; assumption].
-      + destruct Hr as [x [Hx Hok]]. exists r, x. split; [left; reflexivity | split; assumption].
+    intro Hrs.
+    assert (H : roots_post rs [] (selv_roots g ok rs [])).
+    { apply selv_roots_post; [exact Hrs | intros v [] | intros v []]. }
+    destruct (selv_roots g ok rs []) as [m |]; simpl in H |- *; [| exact H].
+    destruct H as [_ [H2 [H3 [H4 H5]]]]. split.
+    - intro x. split.
+      + intro Hx. destruct (H5 x Hx) as [[] | Hex]. exact Hex.
+      + intros [r [Hr [E | Hx]]]; [subst x; exact (H2 r Hr) |].
+        exact (closed_reach m H3 r x Hx (H2 r Hr)).
+    - intros r x Hr Hx. apply H4. exact (closed_reach m H3 r x Hx (H2 r Hr)).
   Qed.
 End Sel.
-
-Lemma mem_nat_spec x l : mem_nat x l = true <-> In x l.
-Proof.
-  unfold mem_nat. rewrite existsb_exists. split.
-  - intros [y [Hy E]]. apply Nat.eqb_eq in E. subst. exact Hy.
-  - intro H. exists x. split; [exact H | apply Nat.eqb_refl].
-Qed.
 
 Lemma normalize_spec g m x : In x (normalize g m) <-> In x m /\ x < size g.
 Proof.
@@ -177,14 +272,21 @@ Proof.
   - intros [H Hm]. split; [split; [lia | exact H] | exact Hm].
 Qed.
 
+(* a root has passed the platform check in the root loop *)
+Lemma roots_plat_ok cfg ns g r : In r (roots cfg ns g) -> plat_okb cfg ns r = true.
+Proof.
+  intro H. apply roots_in in H. destruct H as [_ H]. unfold node_match in H.
+  apply andb_true_iff in H. exact (proj2 H).
+Qed.
+
 (* selection = closure of the code's roots (matched aliases are roots) *)
 Lemma selection_is_closure_code_roots cfg ns g S :
   topo g -> select_for_build cfg ns g = Selected S ->
   forall n, In n S <-> exists r, In r (roots cfg ns g) /\ reach_refl g n r.
 Proof.
   intros Ht Hs n. unfold select_for_build, select_marks in Hs.
-  pose proof (select_roots_spec g (plat_okb cfg ns) Ht (roots cfg ns g)) as Hspec.
-  destruct (select_roots g (plat_okb cfg ns) (roots cfg ns g)) as [m |]; [| discriminate].
+  pose proof (select_roots_spec g (plat_okb cfg ns) Ht (roots cfg ns g) (roots_plat_ok cfg ns g)) as Hspec.
+  destruct (selv_roots g (plat_okb cfg ns) (roots cfg ns g) []) as [m |]; [| discriminate].
   injection Hs as Hs. subst S. destruct Hspec as [H1 _].
   rewrite normalize_spec, H1. split.
   - intros [H _]. exact H.
@@ -200,8 +302,8 @@ Lemma platform_error_iff cfg ns g :
    exists r n, In r (roots cfg ns g) /\ reach g n r /\ node_matches_platform cfg (attr ns n) = false).
 Proof.
   intro Ht. unfold select_for_build, select_marks.
-  pose proof (select_roots_spec g (plat_okb cfg ns) Ht (roots cfg ns g)) as Hspec.
-  destruct (select_roots g (plat_okb cfg ns) (roots cfg ns g)) as [m |].
+  pose proof (select_roots_spec g (plat_okb cfg ns) Ht (roots cfg ns g) (roots_plat_ok cfg ns g)) as Hspec.
+  destruct (selv_roots g (plat_okb cfg ns) (roots cfg ns g) []) as [m |].
   - destruct Hspec as [_ H2]. split; [discriminate |].
     intros [r [n [Hr [Hx Hp]]]]. specialize (H2 r n Hr Hx). unfold plat_okb in H2. congruence.
   - split; [| reflexivity]. intros _. exact Hspec.
@@ -279,13 +381,22 @@ Qed.
 Lemma spec_roots_in cfg ns g r : In r (spec_roots cfg ns g) -> r < size g.
 Proof. unfold spec_roots. rewrite filter_In, in_seq. intros [[_ H] _]. exact H. Qed.
 
+Lemma spec_roots_plat_ok cfg ns g r : In r (spec_roots cfg ns g) -> plat_okb cfg ns r = true.
+Proof.
+  unfold spec_roots. rewrite filter_In. intros [_ H]. unfold plat_okb.
+  destruct (nkind (attr ns r)) eqn:K.
+  - rewrite (spec_root_target cfg ns g r K) in H. unfold node_match in H.
+    apply andb_true_iff in H. exact (proj2 H).
+  - unfold node_matches_platform. rewrite K. reflexivity.
+Qed.
+
 Lemma selection_spec_is_closure cfg ns g S :
   topo g -> select_for_build_spec cfg ns g = Selected S ->
   forall n, In n S <-> exists r, In r (spec_roots cfg ns g) /\ reach_refl g n r.
 Proof.
   intros Ht Hs n. unfold select_for_build_spec in Hs.
-  pose proof (select_roots_spec g (plat_okb cfg ns) Ht (spec_roots cfg ns g)) as Hspec.
-  destruct (select_roots g (plat_okb cfg ns) (spec_roots cfg ns g)) as [m |]; [| discriminate].
+  pose proof (select_roots_spec g (plat_okb cfg ns) Ht (spec_roots cfg ns g) (spec_roots_plat_ok cfg ns g)) as Hspec.
+  destruct (selv_roots g (plat_okb cfg ns) (spec_roots cfg ns g) []) as [m |]; [| discriminate].
   injection Hs as Hs. subst S. destruct Hspec as [H1 _].
   rewrite normalize_spec, H1. split.
   - intros [H _]. exact H.
@@ -301,8 +412,8 @@ Lemma platform_error_spec_iff cfg ns g :
    exists r n, In r (spec_roots cfg ns g) /\ reach g n r /\ node_matches_platform cfg (attr ns n) = false).
 Proof.
   intro Ht. unfold select_for_build_spec.
-  pose proof (select_roots_spec g (plat_okb cfg ns) Ht (spec_roots cfg ns g)) as Hspec.
-  destruct (select_roots g (plat_okb cfg ns) (spec_roots cfg ns g)) as [m |].
+  pose proof (select_roots_spec g (plat_okb cfg ns) Ht (spec_roots cfg ns g) (spec_roots_plat_ok cfg ns g)) as Hspec.
+  destruct (selv_roots g (plat_okb cfg ns) (spec_roots cfg ns g) []) as [m |].
   - destruct Hspec as [_ H2]. split; [discriminate |].
     intros [r [n [Hr [Hx Hp]]]]. specialize (H2 r n Hr Hx). unfold plat_okb in H2. congruence.
   - split; [| reflexivity]. intros _. exact Hspec.
@@ -381,7 +492,7 @@ Proof.
   exact (no_reach_leaf wit_graph 2 n eq_refl Hx).
 Qed.
 
-(* ------------------------------------------------------------------ path enumerations (C20, C19) *)
+(* ------------------------------------------------------------------ the visited traversals (C20, C19) *)
 
 (* reachability along an arbitrary successor function *)
 Inductive nreach (next : nat -> list nat) : nat -> nat -> Prop :=
@@ -399,6 +510,164 @@ Proof.
     + subst. apply nreach_step. exact Hin.
     + exact (nreach_trans next x d n H Hin).
 Qed.
+
+(* the map only grows, at the front; no key is entered twice *)
+Lemma dfs_list_suffix rec ds :
+  (forall d st, exists new, fst (rec d st) = new ++ fst st) ->
+  forall st, exists new, fst (dfs_list rec ds st) = new ++ fst st.
+Proof.
+  intro Hrec. induction ds as [| d ds IH]; intros [vis c].
+  - exists []. reflexivity.
+  - cbn [dfs_list]. destruct (mem_nat d vis).
+    + exact (IH (vis, S c)).
+    + destruct (IH (rec d (d :: vis, S c))) as [new2 E2].
+      destruct (Hrec d (d :: vis, S c)) as [new1 E1]. cbn [fst] in E1.
+      exists (new2 ++ new1 ++ [d]). rewrite E2, E1. cbn [fst]. rewrite <- !app_assoc. reflexivity.
+Qed.
+
+Lemma dfs_suffix next fuel : forall n st, exists new, fst (dfs next fuel n st) = new ++ fst st.
+Proof.
+  induction fuel as [| f IH]; intros n st.
+  - exists []. reflexivity.
+  - cbn [dfs]. destruct (dfs_list_suffix (dfs next f) (next n) (fun d st' => IH d st') (fst st, S (snd st))) as [new E].
+    exists new. exact E.
+Qed.
+
+Lemma dfs_list_nodup rec ds :
+  (forall d st, NoDup (fst st) -> NoDup (fst (rec d st))) ->
+  forall st, NoDup (fst st) -> NoDup (fst (dfs_list rec ds st)).
+Proof.
+  intro Hrec. induction ds as [| d ds IH]; intros [vis c] Hnd; [exact Hnd |].
+  cbn [dfs_list]. destruct (mem_nat d vis) eqn:Em.
+  - apply IH. exact Hnd.
+  - apply IH. apply Hrec. cbn [fst] in *. constructor; [| exact Hnd].
+    intro H. apply mem_nat_spec in H. congruence.
+Qed.
+
+Lemma dfs_nodup next fuel : forall n st, NoDup (fst st) -> NoDup (fst (dfs next fuel n st)).
+Proof.
+  induction fuel as [| f IH]; intros n st Hnd; [exact Hnd |].
+  cbn [dfs]. apply dfs_list_nodup; [intros d st'; apply IH | exact Hnd].
+Qed.
+
+Section DfsSpec.
+  Variable next : nat -> list nat.
+  Variable rank : nat -> nat.
+  Hypothesis Hrank : forall n d, In d (next n) -> rank d < rank n.
+
+  Lemma nreach_rank x n : nreach next x n -> rank x < rank n.
+  Proof.
+    intro H. induction H as [x n Hin | x b n Hxb IH Hin].
+    - exact (Hrank n x Hin).
+    - specialize (Hrank n b Hin). lia.
+  Qed.
+
+  Definition nfin (vis : list nat) (v : nat) : Prop := forall d, In d (next v) -> In d vis.
+  Definition nbelow (k : nat) (vis : list nat) : Prop := forall v, In v vis -> rank v < k -> nfin vis v.
+
+  Lemma nfin_mono vis vis' v : incl vis vis' -> nfin vis v -> nfin vis' v.
+  Proof. intros Hi Hf d Hd. apply Hi. exact (Hf d Hd). Qed.
+
+  Lemma nbelow_reach k vis : nbelow k vis -> forall v x, nreach next x v -> In v vis -> rank v < k -> In x vis.
+  Proof.
+    intros Hb v x Hr. induction Hr as [x v Hin | x b v Hxb IH Hin]; intros Hv Hk.
+    - exact (Hb v Hv Hk x Hin).
+    - apply IH; [exact (Hb v Hv Hk b Hin) | specialize (Hrank v b Hin); lia].
+  Qed.
+
+  Definition dpost (d : nat) (vis vis' : list nat) : Prop :=
+    incl vis vis' /\ nfin vis' d /\ nbelow (rank d) vis' /\ (forall v, In v vis' -> In v vis \/ nreach next v d).
+
+  Definition dspec (rec : nat -> list nat * nat -> list nat * nat) (d : nat) : Prop :=
+    forall st, In d (fst st) -> nbelow (rank d) (fst st) -> dpost d (fst st) (fst (rec d st)).
+
+  Definition lpost (k : nat) (ds vis vis' : list nat) : Prop :=
+    incl vis vis' /\ (forall d, In d ds -> In d vis') /\ nbelow k vis' /\
+    (forall v, In v vis' -> In v vis \/ exists d, In d ds /\ (v = d \/ nreach next v d)).
+
+  Lemma dfs_list_spec rec k ds :
+    (forall d, In d ds -> rank d < k) -> (forall d, In d ds -> dspec rec d) ->
+    forall st, nbelow k (fst st) -> lpost k ds (fst st) (fst (dfs_list rec ds st)).
+  Proof.
+    induction ds as [| d ds IH]; intros Hlt Hrec [vis c] Hb; cbn [fst] in Hb.
+    - cbn [dfs_list fst]. split; [apply incl_refl |]. split; [intros d [] |]. split; [exact Hb |].
+      intros v Hv. left. exact Hv.
+    - assert (Hlt' : forall d', In d' ds -> rank d' < k) by (intros d' H; apply Hlt; right; exact H).
+      assert (Hrec' : forall d', In d' ds -> dspec rec d') by (intros d' H; apply Hrec; right; exact H).
+      cbn [dfs_list]. destruct (mem_nat d vis) eqn:Em.
+      + destruct (IH Hlt' Hrec' (vis, S c) Hb) as [I1 [I2 [I3 I4]]]. cbn [fst] in *.
+        split; [exact I1 |]. split.
+        * intros d' [E | Hd']; [subst d'; apply I1, mem_nat_spec; exact Em | exact (I2 d' Hd')].
+        * split; [exact I3 |]. intros v Hv. destruct (I4 v Hv) as [H | [d' [Hd' Hr]]]; [left; exact H |].
+          right. exists d'. split; [right; exact Hd' | exact Hr].
+      + assert (Hdk : rank d < k) by (apply Hlt; left; reflexivity).
+        assert (Hd : dpost d (d :: vis) (fst (rec d (d :: vis, S c)))).
+        { apply (Hrec d (or_introl eq_refl) (d :: vis, S c)); cbn [fst].
+          - left; reflexivity.
+          - intros v [E | Hv] Hvd; [subst v; lia |].
+            apply (nfin_mono vis); [apply incl_tl, incl_refl | apply Hb; [exact Hv | lia]]. }
+        destruct Hd as [D1 [D2 [D3 D4]]].
+        assert (Hb1 : nbelow k (fst (rec d (d :: vis, S c)))).
+        { intros v Hv Hvk. destruct (D4 v Hv) as [[E | Hin] | Hr].
+          - subst v. exact D2.
+          - apply (nfin_mono vis); [intros y Hy; apply D1; right; exact Hy | exact (Hb v Hin Hvk)].
+          - apply D3; [exact Hv | exact (nreach_rank v d Hr)]. }
+        destruct (IH Hlt' Hrec' (rec d (d :: vis, S c)) Hb1) as [I1 [I2 [I3 I4]]]. cbn [fst].
+        split.
+        * intros y Hy. apply I1, D1. right. exact Hy.
+        * split.
+          -- intros d' [E | Hd']; [subst d'; apply I1, D1; left; reflexivity | exact (I2 d' Hd')].
+          -- split; [exact I3 |]. intros v Hv. destruct (I4 v Hv) as [Hin | [d' [Hd' Hr]]].
+             ++ destruct (D4 v Hin) as [[E | Hin'] | Hr].
+                ** subst v. right. exists d. split; [left; reflexivity | left; reflexivity].
+                ** left. exact Hin'.
+                ** right. exists d. split; [left; reflexivity | right; exact Hr].
+             ++ right. exists d'. split; [right; exact Hd' | exact Hr].
+  Qed.
+
+  Lemma dfs_spec : forall fuel n, rank n <= fuel -> dspec (dfs next fuel) n.
+  Proof.
+    induction fuel as [| f IH]; intros n Hn st Hin Hb.
+    - cbn [dfs fst]. split; [apply incl_refl |]. split.
+      + intros d Hd. specialize (Hrank n d Hd). lia.
+      + split; [exact Hb |]. intros v Hv. left. exact Hv.
+    - cbn [dfs].
+      destruct (dfs_list_spec (dfs next f) (rank n) (next n) (Hrank n)
+                  (fun d Hd => IH d ltac:(specialize (Hrank n d Hd); lia)) (fst st, S (snd st)) Hb)
+        as [L1 [L2 [L3 L4]]]. cbn [fst] in *.
+      split; [exact L1 |]. split; [exact L2 |]. split; [exact L3 |].
+      intros v Hv. destruct (L4 v Hv) as [H | [d [Hd Hr]]]; [left; exact H |].
+      right. apply nreach_inv. exists d. split; assumption.
+  Qed.
+
+  (* started from the map {n}: the keys entered are exactly the nodes reachable from n, each once *)
+  Lemma dfs_from_start fuel n c : rank n <= fuel ->
+    exists new, fst (dfs next fuel n ([n], c)) = new ++ [n] /\ NoDup new /\
+                forall x, In x new <-> nreach next x n.
+  Proof.
+    intro Hn. destruct (dfs_suffix next fuel n ([n], c)) as [new E]. cbn [fst] in E.
+    exists new. split; [exact E |].
+    assert (Hnd : NoDup (new ++ [n])).
+    { rewrite <- E. apply dfs_nodup. cbn [fst]. constructor; [intros [] | constructor]. }
+    assert (Hnn : ~ In n new).
+    { intro H. apply NoDup_remove_2 in Hnd. apply Hnd. rewrite app_nil_r. exact H. }
+    split; [apply NoDup_remove_1 in Hnd; rewrite app_nil_r in Hnd; exact Hnd |].
+    destruct (dfs_spec fuel n Hn ([n], c)) as [D1 [D2 [D3 D4]]]; cbn [fst].
+    - left; reflexivity.
+    - intros v [Ev | []] Hv. subst v. lia.
+    - cbn [fst] in *. rewrite E in *. intro x. split.
+      + intro Hx. destruct (D4 x (in_or_app _ _ _ (or_introl Hx))) as [[Ex | []] | Hr]; [| exact Hr].
+        subst x. contradiction.
+      + intro Hr. assert (Hx : In x (new ++ [n])).
+        { apply nreach_inv in Hr. destruct Hr as [d [Hd [Ex | Hr]]].
+          - subst x. exact (D2 d Hd).
+          - exact (nbelow_reach (rank n) _ D3 d x Hr (D2 d Hd) (Hrank n d Hd)). }
+        apply in_app_or in Hx. destruct Hx as [Hx | [Ex | []]]; [exact Hx |].
+        subst x. pose proof (nreach_rank n n Hr). lia.
+  Qed.
+End DfsSpec.
+
+(* --- the path enumerations (history) and the relation between the two reachability notions *)
 
 Lemma paths_spec next (rank : nat -> nat) :
   (forall n d, In d (next n) -> rank d < rank n) ->
@@ -470,10 +739,71 @@ Proof.
   specialize (Ht _ _ Hin). lia.
 Qed.
 
+(* --- GetAncestors / GetDescendants: exactly the transitive dependencies / dependants, each once *)
+
+Lemma visited_nodup next fuel n c : NoDup (rev (removelast (fst (dfs next fuel n ([n], c))))).
+Proof.
+  destruct (dfs_suffix next fuel n ([n], c)) as [new E]. cbn [fst] in E.
+  assert (Hnd : NoDup (new ++ [n])).
+  { rewrite <- E. apply dfs_nodup. cbn [fst]. constructor; [intros [] | constructor]. }
+  rewrite E, removelast_last. apply NoDup_rev.
+  apply NoDup_remove_1 in Hnd. rewrite app_nil_r in Hnd. exact Hnd.
+Qed.
+
+Lemma deps_t_nodup g n : NoDup (deps_t g n).
+Proof.
+  unfold deps_t, ancestors_visited.
+  pose proof (visited_nodup (deps g) (S n) n 0) as H.
+  destruct (dfs (deps g) (S n) n ([n], 0)) as [vis c]. exact H.
+Qed.
+
+Lemma rdeps_t_nodup g n : NoDup (rdeps_t g n).
+Proof.
+  unfold rdeps_t, descendants_visited.
+  pose proof (visited_nodup (dependants g) (size g) n 0) as H.
+  destruct (dfs (dependants g) (size g) n ([n], 0)) as [vis c]. exact H.
+Qed.
+
+Lemma dependants_rank g : topo g ->
+  forall n d, In d (dependants g n) -> size g - d < size g - n.
+Proof.
+  intros Ht n d Hd. apply dependants_spec in Hd. destruct Hd as [Hd Hin].
+  specialize (Ht _ _ Hin). lia.
+Qed.
+
+Lemma deps_t_exact g n x : topo g -> (In x (deps_t g n) <-> reach g x n).
+Proof.
+  intro Ht. unfold deps_t, ancestors_visited.
+  destruct (dfs_from_start (deps g) (fun v => v) Ht (S n) n 0) as [new [E [_ Hin]]]; [lia |].
+  destruct (dfs (deps g) (S n) n ([n], 0)) as [vis c]. cbn [fst] in *. subst vis.
+  rewrite removelast_last, <- in_rev, Hin. apply nreach_deps.
+Qed.
+
+Lemma rdeps_t_exact g n x : topo g -> (In x (rdeps_t g n) <-> reach g n x).
+Proof.
+  intro Ht. unfold rdeps_t, descendants_visited.
+  destruct (dfs_from_start (dependants g) (fun v => size g - v) (dependants_rank g Ht) (size g) n 0)
+    as [new [E [_ Hin]]]; [lia |].
+  destruct (dfs (dependants g) (size g) n ([n], 0)) as [vis c]. cbn [fst] in *. subst vis.
+  rewrite removelast_last, <- in_rev, Hin. apply nreach_dependants.
+Qed.
+
 Lemma deps_rdeps_inverse g n x : topo g -> (In x (deps_t g n) <-> In n (rdeps_t g x)).
 Proof.
-  intro Ht. unfold deps_t, rdeps_t.
-  rewrite (ancestors_paths_exact g n x Ht), (descendants_paths_exact g x n Ht). reflexivity.
+  intro Ht. rewrite (deps_t_exact g n x Ht), (rdeps_t_exact g x n Ht). reflexivity.
+Qed.
+
+(* the traversals return the de-duplicated "all paths" enumerations *)
+Lemma deps_t_is_ancestors_set g n x : topo g -> (In x (deps_t g n) <-> In x (ancestors_set g n)).
+Proof.
+  intro Ht. rewrite (deps_t_exact g n x Ht). unfold ancestors_set, dedup_nat. rewrite nodup_In.
+  symmetry. apply ancestors_paths_exact. exact Ht.
+Qed.
+
+Lemma rdeps_t_is_descendants_set g n x : topo g -> (In x (rdeps_t g n) <-> In x (descendants_set g n)).
+Proof.
+  intro Ht. rewrite (rdeps_t_exact g n x Ht). unfold descendants_set, dedup_nat. rewrite nodup_In.
+  symmetry. apply descendants_paths_exact. exact Ht.
 Qed.
 
 Lemma ancestors_set_exact g n : topo g ->
@@ -504,18 +834,19 @@ Proof.
   - destruct i; simpl in H; contradiction.
 Qed.
 
-Lemma deps_nodup_refuted : exists g n, topo g /\ ~ NoDup (deps_t g n).
+(* history (C20-F1): the path enumerations returned a node once per path *)
+Lemma ancestors_paths_nodup_refuted : exists g n, topo g /\ ~ NoDup (ancestors_paths g n).
 Proof.
   exists diamond, 3. split; [exact diamond_topo |].
-  assert (E : deps_t diamond 3 = [1; 0; 2; 0]) by (vm_compute; reflexivity).
+  assert (E : ancestors_paths diamond 3 = [1; 0; 2; 0]) by (vm_compute; reflexivity).
   rewrite E. intro H. inversion H as [| a l Hn Hd]; subst.
   inversion Hd as [| a l Hn' Hd']; subst. apply Hn'. right. left. reflexivity.
 Qed.
 
-Lemma rdeps_nodup_refuted : exists g n, topo g /\ ~ NoDup (rdeps_t g n).
+Lemma descendants_paths_nodup_refuted : exists g n, topo g /\ ~ NoDup (descendants_paths g n).
 Proof.
   exists diamond, 0. split; [exact diamond_topo |].
-  assert (E : rdeps_t diamond 0 = [1; 3; 2; 3]) by (vm_compute; reflexivity).
+  assert (E : descendants_paths diamond 0 = [1; 3; 2; 3]) by (vm_compute; reflexivity).
   rewrite E. intro H. inversion H as [| a l Hn Hd]; subst.
   inversion Hd as [| a l Hn' Hd']; subst. apply Hn'. right. left. reflexivity.
 Qed.
@@ -540,13 +871,51 @@ Proof.
   rewrite insert_sorted_in, IH. split; intros [E | H]; auto.
 Qed.
 
-Lemma print_sorted_in ns l s :
-  In s (print_sorted ns l) <-> exists i, In i l /\ s = print_label (nlabel (attr ns i)).
+Lemma sorted_labels_in ns l s :
+  In s (sorted_labels ns l) <-> exists i, In i l /\ s = print_label (nlabel (attr ns i)).
 Proof.
-  unfold print_sorted. rewrite sort_strs_in, in_map_iff. split.
+  unfold sorted_labels. rewrite sort_strs_in, in_map_iff. split.
   - intros [i [E Hi]]. exists i. split; [exact Hi | symmetry; exact E].
   - intros [i [Hi E]]. exists i. split; [symmetry; exact E | exact Hi].
 Qed.
+
+(* slices.Compact keeps the elements ... *)
+Lemma compact_strs_cons2 x y l :
+  compact_strs (x :: y :: l) = if str_eqb x y then compact_strs (y :: l) else x :: compact_strs (y :: l).
+Proof. reflexivity. Qed.
+
+Lemma compact_strs_in x l : In x (compact_strs l) <-> In x l.
+Proof.
+  induction l as [| a l IH]; [reflexivity |].
+  destruct l as [| b l]; [reflexivity |].
+  rewrite compact_strs_cons2. destruct (str_eqb a b) eqn:E.
+  - apply str_eqb_eq in E. subst b. rewrite IH. split; [intro H; right; exact H |].
+    intros [Ea | H]; [left; exact Ea | exact H].
+  - split.
+    + intros [Ea | H]; [left; exact Ea | right; apply IH; exact H].
+    + intros [Ea | H]; [left; exact Ea | right; apply IH; exact H].
+Qed.
+
+(* ... and on a sorted list no element survives twice *)
+Lemma compact_strs_nodup l : sorted l -> NoDup (compact_strs l).
+Proof.
+  induction l as [| a l IH]; intro Hs; [constructor |].
+  destruct l as [| b l]; [constructor; [intros [] | constructor] |].
+  destruct Hs as [Ha Hs]. rewrite compact_strs_cons2. destruct (str_eqb a b) eqn:E; [exact (IH Hs) |].
+  constructor; [| exact (IH Hs)].
+  intro Hin. rewrite compact_strs_in in Hin. apply str_eqb_neq in E. apply E.
+  destruct Hin as [Eb | Hin]; [symmetry; exact Eb |].
+  apply str_leb_antisym; [apply Ha; left; reflexivity |].
+  destruct Hs as [Hb _]. apply Hb. exact Hin.
+Qed.
+
+Lemma print_sorted_in ns l s :
+  In s (print_sorted ns l) <-> exists i, In i l /\ s = print_label (nlabel (attr ns i)).
+Proof. unfold print_sorted. rewrite compact_strs_in. apply sorted_labels_in. Qed.
+
+(* label.PrintSorted prints every label once, whatever it is given *)
+Lemma print_sorted_nodup ns l : NoDup (print_sorted ns l).
+Proof. unfold print_sorted, sorted_labels. apply compact_strs_nodup. apply sort_strs_sorted. Qed.
 
 Lemma deps_query_exact cfg ns g n s : topo g ->
   (In s (deps_query cfg ns g n true) <->
@@ -554,9 +923,9 @@ Lemma deps_query_exact cfg ns g n s : topo g ->
 Proof.
   intro Ht. unfold deps_query, filter_nodes. rewrite print_sorted_in. split.
   - intros [i [Hi E]]. apply filter_In in Hi. destruct Hi as [Hi Hm].
-    exists i. split; [apply (ancestors_paths_exact g n i Ht); exact Hi | split; assumption].
+    exists i. split; [apply (deps_t_exact g n i Ht); exact Hi | split; assumption].
   - intros [x [Hx [Hm E]]]. exists x. split; [| exact E].
-    apply filter_In. split; [apply (ancestors_paths_exact g n x Ht); exact Hx | exact Hm].
+    apply filter_In. split; [apply (deps_t_exact g n x Ht); exact Hx | exact Hm].
 Qed.
 
 Lemma rdeps_query_exact cfg ns g n s : topo g ->
@@ -565,9 +934,9 @@ Lemma rdeps_query_exact cfg ns g n s : topo g ->
 Proof.
   intro Ht. unfold rdeps_query, filter_nodes. rewrite print_sorted_in. split.
   - intros [i [Hi E]]. apply filter_In in Hi. destruct Hi as [Hi Hm].
-    exists i. split; [apply (descendants_paths_exact g n i Ht); exact Hi | split; assumption].
+    exists i. split; [apply (rdeps_t_exact g n i Ht); exact Hi | split; assumption].
   - intros [x [Hx [Hm E]]]. exists x. split; [| exact E].
-    apply filter_In. split; [apply (descendants_paths_exact g n x Ht); exact Hx | exact Hm].
+    apply filter_In. split; [apply (rdeps_t_exact g n x Ht); exact Hx | exact Hm].
 Qed.
 
 Lemma deps_query_direct_exact cfg ns g n s :
@@ -591,21 +960,30 @@ Proof.
     apply filter_In. split; [apply dependants_spec; auto | exact Hm].
 Qed.
 
-(* printed level: the diamond prints //:lib twice *)
+(* printed level: every line once, for every query *)
+Lemma deps_query_nodup cfg ns g n t : NoDup (deps_query cfg ns g n t).
+Proof. unfold deps_query. apply print_sorted_nodup. Qed.
+
+Lemma rdeps_query_nodup cfg ns g n t : NoDup (rdeps_query cfg ns g n t).
+Proof. unfold rdeps_query. apply print_sorted_nodup. Qed.
+
+Lemma owners_nodup ns files : NoDup (owners ns files).
+Proof. unfold owners. apply print_sorted_nodup. Qed.
+
+(* the diamond: //:plain (the base) is printed once *)
 Definition dia_nodes : list node :=
   map (fun n => mkNode KTarget (lbl n) [] [] false []) [w_plain; w_al; w_x; w_tagged].
 Definition all_cfg : config := mkCfg [] [] [] AllTargets w_linux false.
 
-Lemma deps_query_nodup_refuted :
-  exists cfg ns g n, topo g /\ ~ NoDup (deps_query cfg ns g n true).
-Proof.
-  exists all_cfg, dia_nodes, diamond, 3. split; [exact diamond_topo |].
-  assert (E : deps_query all_cfg dia_nodes diamond 3 true =
-              [dslash ++ ch_colon :: w_al; dslash ++ ch_colon :: w_plain; dslash ++ ch_colon :: w_plain;
-               dslash ++ ch_colon :: w_x]) by (vm_compute; reflexivity).
-  rewrite E. intro H. inversion H as [| a l Hn Hd]; subst.
-  inversion Hd as [| a l Hn' Hd']; subst. apply Hn'. left. reflexivity.
-Qed.
+Example deps_query_diamond :
+  deps_query all_cfg dia_nodes diamond 3 true =
+  [dslash ++ ch_colon :: w_al; dslash ++ ch_colon :: w_plain; dslash ++ ch_colon :: w_x].
+Proof. vm_compute. reflexivity. Qed.
+
+(* a dependency declared twice is printed once by the direct query *)
+Example deps_query_declared_twice :
+  deps_query all_cfg dia_nodes [[]; [0; 0]] 1 false = [dslash ++ ch_colon :: w_plain].
+Proof. vm_compute. reflexivity. Qed.
 
 Lemma owners_exact ns files s :
   In s (owners ns files) <->
@@ -630,7 +1008,7 @@ Lemma list_exact cfg ns g s :
   exists i, i < size g /\ node_matches_filters cfg (attr ns i) = true /\
             node_matches_platform cfg (attr ns i) = true /\ s = print_label (nlabel (attr ns i)).
 Proof.
-  unfold list_query, select_targets. rewrite print_sorted_in. split.
+  unfold list_query, select_targets. rewrite sorted_labels_in. split.
   - intros [i [Hi E]]. apply filter_In in Hi. destruct Hi as [Hi Hm]. apply in_seq in Hi.
     unfold node_match in Hm. apply andb_true_iff in Hm. exists i. split; [lia | tauto].
   - intros [i [Hi [Hf [Hp E]]]]. exists i. split; [| exact E].
@@ -641,7 +1019,10 @@ Qed.
 Lemma list_targets_nodup cfg ns g : NoDup (select_targets cfg ns g).
 Proof. unfold select_targets. apply NoDup_filter. apply seq_NoDup. Qed.
 
-(* ------------------------------------------------------------------ cost semantics (C19) *)
+(* ------------------------------------------------------------------ history: cost of the path enumerations (C19-F1..F3) *)
+
+(* These lemmas speak about [paths_c] / [sel_anc_c], the traversals as they were BEFORE the
+   visited sets; they document what the repaired findings were. *)
 
 (* the instrumented twins compute the same results, and the number of calls of the
    path-enumerating functions is the length of the result + 1 *)
@@ -657,31 +1038,7 @@ Proof.
   rewrite app_length. simpl. lia.
 Qed.
 
-Lemma sel_list_c_fst ok (rec : nat -> option (list nat) * nat) ds :
-  fst (sel_list_c ok rec ds) = sel_list ok (fun d => fst (rec d)) ds.
-Proof.
-  induction ds as [| d ds IH]; [reflexivity |].
-  simpl. destruct (ok d); [| reflexivity].
-  destruct (rec d) as [[m1 |] c1]; simpl; [| reflexivity].
-  rewrite <- IH. destruct (sel_list_c ok rec ds) as [[m2 |] c2]; reflexivity.
-Qed.
-
-Lemma sel_list_ext ok (r1 r2 : nat -> option (list nat)) ds :
-  (forall d, r1 d = r2 d) -> sel_list ok r1 ds = sel_list ok r2 ds.
-Proof.
-  intro H. induction ds as [| d ds IH]; [reflexivity |].
-  simpl. rewrite H, IH. reflexivity.
-Qed.
-
-Lemma sel_anc_c_fst g ok fuel n : fst (sel_anc_c g ok fuel n) = sel_anc g ok fuel n.
-Proof.
-  revert n. induction fuel as [| f IH]; intro n; [reflexivity |].
-  simpl. destruct (sel_list_c ok (sel_anc_c g ok f) (deps g n)) as [r c] eqn:E. simpl.
-  pose proof (sel_list_c_fst ok (sel_anc_c g ok f) (deps g n)) as H. rewrite E in H. simpl in H.
-  rewrite H. apply sel_list_ext. exact IH.
-Qed.
-
-(* without platform constraints the selection makes exactly the calls of GetAncestors *)
+(* without platform constraints the former selection made exactly the calls of the former GetAncestors *)
 Lemma sel_list_c_true (rec : nat -> option (list nat) * nat) (c : nat -> nat) ds :
   (forall d, exists m, rec d = (Some m, c d)) ->
   exists m, sel_list_c (fun _ => true) rec ds = (Some m, list_sum (map c ds)).
@@ -845,7 +1202,7 @@ Proof.
     contradiction.
 Qed.
 
-(* --- the code as it is: exponential on ladders, linear on chains *)
+(* --- the code as it was: exponential on ladders, linear on chains *)
 
 Lemma select_poly_refuted :
   exists g r, topo g /\ select_paths_cost g r > 4 * (size g + edges g + 1) ^ 2.
@@ -874,7 +1231,9 @@ Proof. apply Nat.eqb_eq. vm_compute. reflexivity. Qed.
 Lemma chain_same_size_linear : size (chain 30) = size (ladder 2 14) /\ select_paths_cost (chain 30) 29 = 30.
 Proof. split; [vm_compute; reflexivity | apply (select_cost_chain 30); lia]. Qed.
 
-(* --- visited variants: cost <= V + E + 1 *)
+(* ------------------------------------------------------------------ cost of the traversals (C19) *)
+
+(* --- the traversals with their visited sets: cost <= V + E + 1 *)
 
 Definition weight (next : nat -> list nat) (v : nat) : nat := S (length (next v)).
 Definition wsum (next : nat -> list nat) (l : list nat) : nat := list_sum (map (weight next) l).
@@ -1101,3 +1460,151 @@ Proof.
       apply dependants_spec in Hd. destruct Hd as [Hd Hin]. specialize (Hwf d n Hin). lia. }
   destruct (dfs (dependants g) (size g) n ([n], 0)) as [vis c]. exact H.
 Qed.
+
+(* --- the traversal of selectAllAncestorsForBuild is the one whose cost is bounded above: without
+   platform constraints [selv_anc] computes the visited map of [dfs] over the dependencies *)
+Lemma selv_list_true rec rec' ds :
+  (forall d st, rec d (fst st) = Some (fst (rec' d st))) ->
+  forall st, selv_list (fun _ => true) rec ds (fst st) = Some (fst (dfs_list rec' ds st)).
+Proof.
+  intro Hrec. induction ds as [| d ds IH]; intros [vis c]; [reflexivity |].
+  cbn [selv_list dfs_list fst]. destruct (mem_nat d vis).
+  - exact (IH (vis, S c)).
+  - pose proof (Hrec d (d :: vis, S c)) as H. cbn [fst] in H. rewrite H.
+    exact (IH (rec' d (d :: vis, S c))).
+Qed.
+
+Lemma selv_anc_true g fuel : forall n st,
+  selv_anc g (fun _ => true) fuel n (fst st) = Some (fst (dfs (deps g) fuel n st)).
+Proof.
+  induction fuel as [| f IH]; intros n st; [reflexivity |].
+  cbn [selv_anc dfs]. exact (selv_list_true (selv_anc g (fun _ => true) f) (dfs (deps g) f) (deps g n) IH (fst st, S (snd st))).
+Qed.
+
+Lemma select_visited_is_selection g r :
+  selv_roots g (fun _ => true) [r] [] = Some (fst (select_visited g r)).
+Proof.
+  cbn [selv_roots mem_nat existsb]. unfold select_visited.
+  pose proof (selv_anc_true g (S r) r ([r], 0)) as H. cbn [fst] in H. rewrite H. reflexivity.
+Qed.
+
+(* --- the cost is exactly: one unit per node entered + one per edge leaving an entered node *)
+Lemma dfs_list_cost next rec ds :
+  (forall d st, In d ds -> exists new, fst (rec d st) = new ++ fst st /\
+                                       snd (rec d st) = snd st + weight next d + wsum next new) ->
+  forall st, exists new, fst (dfs_list rec ds st) = new ++ fst st /\
+                         snd (dfs_list rec ds st) = snd st + length ds + wsum next new.
+Proof.
+  induction ds as [| d ds IH]; intros Hrec [vis c].
+  - exists []. cbn [dfs_list fst snd length]. split; [reflexivity | unfold wsum; simpl; lia].
+  - assert (Hrec' : forall d' st, In d' ds -> exists new, fst (rec d' st) = new ++ fst st /\
+                                       snd (rec d' st) = snd st + weight next d' + wsum next new)
+      by (intros d' st H; apply Hrec; right; exact H).
+    cbn [dfs_list]. destruct (mem_nat d vis).
+    + destruct (IH Hrec' (vis, S c)) as [new [E1 E2]]. exists new. cbn [fst snd length] in *.
+      split; [exact E1 | lia].
+    + destruct (Hrec d (d :: vis, S c) (or_introl eq_refl)) as [new1 [F1 F2]].
+      destruct (IH Hrec' (rec d (d :: vis, S c))) as [new2 [E1 E2]].
+      cbn [fst snd] in F1, F2. exists (new2 ++ new1 ++ [d]). cbn [fst snd length]. split.
+      * rewrite E1, F1, <- !app_assoc. reflexivity.
+      * assert (W : wsum next [d] = weight next d) by (unfold wsum, weight; simpl; lia).
+        rewrite E2, F2, !wsum_app, W. lia.
+Qed.
+
+Lemma dfs_cost next (rank : nat -> nat) :
+  (forall n d, In d (next n) -> rank d < rank n) ->
+  forall fuel n st, rank n <= fuel ->
+    exists new, fst (dfs next fuel n st) = new ++ fst st /\
+                snd (dfs next fuel n st) = snd st + weight next n + wsum next new.
+Proof.
+  intros Hrank fuel. induction fuel as [| f IH]; intros n st Hn.
+  - exists []. cbn [dfs fst snd]. split; [reflexivity |].
+    assert (E : next n = []).
+    { destruct (next n) as [| d ds] eqn:E; [reflexivity |].
+      assert (Hd : In d (next n)) by (rewrite E; left; reflexivity).
+      specialize (Hrank n d Hd). lia. }
+    unfold weight, wsum. rewrite E. simpl. lia.
+  - cbn [dfs].
+    destruct (dfs_list_cost next (dfs next f) (next n)
+                (fun d st' Hd => IH d st' ltac:(specialize (Hrank n d Hd); lia)) (fst st, S (snd st)))
+      as [new [E1 E2]].
+    exists new. cbn [fst snd] in *. split; [exact E1 | unfold weight; lia].
+Qed.
+
+Lemma wsum_rev next l : wsum next (rev l) = wsum next l.
+Proof.
+  induction l as [| x l IH]; [reflexivity |].
+  simpl. rewrite wsum_app, IH. unfold wsum. simpl. lia.
+Qed.
+
+Lemma select_visited_cost_exact g r : topo g ->
+  select_visited_cost g r = wsum (deps g) (fst (select_visited g r)).
+Proof.
+  intro Ht. unfold select_visited_cost, select_visited.
+  destruct (dfs_cost (deps g) (fun v => v) Ht (S r) r ([r], 0)) as [new [E1 E2]]; [lia |].
+  cbn [fst snd] in *. rewrite E1, E2, wsum_app. unfold wsum at 3. simpl. lia.
+Qed.
+
+Lemma ancestors_visited_cost_exact g n : topo g ->
+  ancestors_visited_cost g n = weight (deps g) n + wsum (deps g) (deps_t g n).
+Proof.
+  intro Ht. unfold ancestors_visited_cost, deps_t, ancestors_visited.
+  destruct (dfs_cost (deps g) (fun v => v) Ht (S n) n ([n], 0)) as [new [E1 E2]]; [lia |].
+  destruct (dfs (deps g) (S n) n ([n], 0)) as [vis c]. cbn [fst snd] in *. subst vis c.
+  rewrite removelast_last, wsum_rev. lia.
+Qed.
+
+Lemma descendants_visited_cost_exact g n : topo g ->
+  descendants_visited_cost g n = weight (dependants g) n + wsum (dependants g) (rdeps_t g n).
+Proof.
+  intro Ht. unfold descendants_visited_cost, rdeps_t, descendants_visited.
+  destruct (dfs_cost (dependants g) (fun v => size g - v) (dependants_rank g Ht) (size g) n ([n], 0))
+    as [new [E1 E2]]; [lia |].
+  destruct (dfs (dependants g) (size g) n ([n], 0)) as [vis c]. cbn [fst snd] in *. subst vis c.
+  rewrite removelast_last, wsum_rev. lia.
+Qed.
+
+(* --- entries into the recursive function: one per distinct node *)
+Lemma select_visited_calls_eq g r : select_visited_calls g r = S (length (deps_t g r)).
+Proof.
+  unfold select_visited_calls, select_visited, deps_t, ancestors_visited.
+  destruct (dfs_suffix (deps g) (S r) r ([r], 0)) as [new E].
+  destruct (dfs (deps g) (S r) r ([r], 0)) as [vis c]. cbn [fst] in *. subst vis.
+  rewrite removelast_last, rev_length, app_length. simpl. lia.
+Qed.
+
+Lemma ancestors_visited_calls_eq g n : ancestors_visited_calls g n = S (length (deps_t g n)).
+Proof. reflexivity. Qed.
+
+Lemma descendants_visited_calls_eq g n : descendants_visited_calls g n = S (length (rdeps_t g n)).
+Proof. reflexivity. Qed.
+
+(* --- hence polynomial: the bound that was refuted for the path enumerations *)
+Lemma linear_is_poly c x : c <= x + 1 -> c <= 4 * (x + 1) ^ 2.
+Proof. intro H. simpl. nia. Qed.
+
+Lemma select_visited_poly g r : wf_graph g -> select_visited_cost g r <= 4 * (size g + edges g + 1) ^ 2.
+Proof. intro H. apply linear_is_poly. exact (select_visited_linear g r H). Qed.
+
+Lemma ancestors_visited_poly g n : wf_graph g -> ancestors_visited_cost g n <= 4 * (size g + edges g + 1) ^ 2.
+Proof. intro H. apply linear_is_poly. exact (ancestors_visited_linear g n H). Qed.
+
+Lemma descendants_visited_poly g n : wf_graph g -> descendants_visited_cost g n <= 4 * (size g + edges g + 1) ^ 2.
+Proof. intro H. apply linear_is_poly. exact (descendants_visited_linear g n H). Qed.
+
+(* the witness of the former refutation (ladder 2 14: 32767 calls each): now 83 steps, V + E + 1 = 87 *)
+Example ladder_2_14_cost :
+  select_visited_cost (ladder 2 14) 28 = 83 /\ ancestors_visited_cost (ladder 2 14) 28 = 83 /\
+  descendants_visited_cost (ladder 2 14) 0 = 83 /\ size (ladder 2 14) + edges (ladder 2 14) + 1 = 87.
+Proof. vm_compute. repeat split. Qed.
+
+(* a topological numbering is in particular well-formed; the hypotheses of the bounds hold on the witness family *)
+Lemma topo_wf g : topo g -> wf_graph g.
+Proof.
+  intros Ht i d Hd. pose proof (Ht i d Hd) as Hlt.
+  destruct (Nat.lt_ge_cases i (size g)) as [L | L]; [lia |].
+  unfold deps in Hd. rewrite (nth_overflow g [] L) in Hd. destruct Hd.
+Qed.
+
+Example visited_bounds_nonvacuous : forall w d, topo (ladder w d) /\ wf_graph (ladder w d).
+Proof. intros w d. split; [apply ladder_topo | apply topo_wf, ladder_topo]. Qed.
